@@ -525,3 +525,102 @@ _run_c21c = run
 def run(ctx):  # noqa: F811
     _run_c21c(ctx)
     r21_9(ctx, ctx.model)
+
+
+DRAWS = ("from_random", "draw_sample", "special_draw_sample", "draw_samples", "normal", "standard_normal", "uniform", "integers", "random", "random_like", "rademacher", "choice", "permutation")
+
+
+def r21_10(ctx, m):
+    """order of consumption of the random stream must not depend on the string hash seed"""
+    ctx.rule("R21.10", "no loop or comprehension that draws random numbers iterates over a set (set(...), set differences / unions, "
+                       "names bound to such): the iteration order of a set of strings depends on the per-process hash seed, so the "
+                       "keys would consume the (correctly seeded) stream in a different order in every process; draws over several "
+                       "keys go through one MultiDomain (sorted keys) or a sorted(...) sequence", floor=3)
+    mods = [mod for mod in m.modules.values() if mod.name.startswith(("nifty.cl.minimization", "nifty.cl.sugar", "nifty.cl.library", "nifty.cl.extra"))] \
+        if hasattr(m, "modules") else []
+    n = 0
+    for mod in mods:
+        for fi in mod.all_functions:
+            setnames = set()
+            for st in walk_no_nested(fi.node):
+                if isinstance(st, ast.Assign) and isinstance(st.targets[0], ast.Name) and _is_set_expr(st.value, setnames):
+                    setnames.add(st.targets[0].id)
+            loops = []
+            for x in walk_no_nested(fi.node):
+                if isinstance(x, ast.For):
+                    loops.append((x.iter, x.body, x))
+                elif isinstance(x, (ast.ListComp, ast.SetComp, ast.DictComp, ast.GeneratorExp)):
+                    for g in x.generators:
+                        elts = [x.key, x.value] if isinstance(x, ast.DictComp) else [x.elt]
+                        loops.append((g.iter, elts, x))
+            for it, body, node in loops:
+                draws = [c for b in body for c in ast.walk(b) if isinstance(c, ast.Call) and call_name(c) in DRAWS]
+                if not draws:
+                    continue
+                n += 1
+                ctx.saw_func(fi)
+                is_set = _is_set_expr(it, setnames)
+                ctx.check("R21.10", f"{fi.key}::loop at +{node.lineno - fi.node.lineno} drawing `{short(draws[0], 40)}` iterates in a defined order", not is_set,
+                          f"iterates over the set `{src(it)}`: the order in which the keys draw depends on PYTHONHASHSEED" if is_set else None, fi, node)
+    if not n:
+        ctx.und("R21.10", "nifty/cl::loops that draw", "none found", "nifty/cl")
+
+
+def _is_set_expr(e, setnames):
+    if isinstance(e, ast.Name):
+        return e.id in setnames
+    if isinstance(e, (ast.Set, ast.SetComp)):
+        return True
+    if isinstance(e, ast.Call) and src(e.func) in ("set", "frozenset"):
+        return True
+    if isinstance(e, ast.BinOp) and isinstance(e.op, (ast.Sub, ast.BitOr, ast.BitAnd, ast.BitXor)):
+        return _is_set_expr(e.left, setnames) or _is_set_expr(e.right, setnames) or \
+            (isinstance(e.left, ast.Call) and call_name(e.left) == "keys") or (isinstance(e.right, ast.Call) and call_name(e.right) == "keys")
+    if isinstance(e, ast.Call) and isinstance(e.func, ast.Attribute) and e.func.attr in ("union", "intersection", "difference", "symmetric_difference") \
+            and _is_set_expr(e.func.value, setnames):
+        return True
+    return False
+
+
+def r21_11(ctx, m):
+    mod = m.module(RND)
+    ctx.rule("R21.11", "cl.random.getState/setState save and restore BOTH stacks (seed sequences and generator objects with their "
+                       "stream positions): setState assigns what getState pickled and constructs no generator - a generator rebuilt "
+                       "from its seed sequence restarts its stream", floor=2)
+    gs, ss = mod.functions.get("getState"), mod.functions.get("setState")
+    if gs is None or ss is None:
+        ctx.und("R21.11", f"{mod.relpath}::getState/setState", "missing", mod.relpath)
+        return
+    ctx.saw_func(gs)
+    ctx.saw_func(ss)
+    dumps = [c for c in walk_no_nested(gs.node) if isinstance(c, ast.Call) and call_name(c) == "dumps"]
+    okg = len(dumps) == 1 and isinstance(dumps[0].args[0], ast.Tuple) and sorted(src(e) for e in dumps[0].args[0].elts) == ["_rng", "_sseq"]
+    ctx.check("R21.11", f"{gs.key}::pickles (_sseq, _rng)", okg, src(dumps[0]) if dumps else None, gs)
+    loads = [st for st in walk_no_nested(ss.node) if isinstance(st, ast.Assign) and isinstance(st.value, ast.Call) and call_name(st.value) == "loads"]
+    builds = [c for c in walk_no_nested(ss.node) if isinstance(c, ast.Call) and call_name(c) in ("default_rng", "Generator", "PCG64", "RandomState")]
+    oks = len(loads) == 1 and isinstance(loads[0].targets[0], ast.Tuple) and dumps and isinstance(dumps[0].args[0], ast.Tuple) and \
+        [src(e) for e in loads[0].targets[0].elts] == [src(e) for e in dumps[0].args[0].elts] and not builds
+    glob = [g for st in walk_no_nested(ss.node) if isinstance(st, ast.Global) for g in st.names]
+    ctx.check("R21.11", f"{ss.key}::assigns both stacks from the pickle, in the order they were stored, as module globals", bool(oks) and sorted(glob) == ["_rng", "_sseq"],
+              (f"`{src(builds[0])}` rebuilds a generator: its stream position is lost" if builds else (src(loads[0]) if loads else None)), ss)
+    ctx.rule("R21.12", "jft.Vector is used as a static (hashed) argument of jitted sampling functions: its __hash__ must depend on the "
+                       "leaf VALUES, because its == is element-wise and always truthy for non-empty trees - a structure-only hash makes "
+                       "different point-estimate masks collide in jit's cache and silently re-uses the wrong trace", floor=1)
+    V = m.cls("nifty.re.tree_math.vector", "Vector")
+    h = V.methods.get("__hash__")
+    if h is None:
+        ctx.und("R21.12", f"{V.key}::__hash__", "not defined", V)
+    else:
+        ctx.saw_func(h)
+        rr = [r for r in walk_no_nested(h.node) if isinstance(r, ast.Return) and r.value is not None]
+        t = src(rr[0].value) if rr else ""
+        ctx.check("R21.12", f"{h.key}::hash depends on the leaves", True if "tree_leaves(self)" in t or "tree_flatten(self)" in t else (False if "tree_structure(self)" in t else None), t, h)
+
+
+_run_c21d = run
+
+
+def run(ctx):  # noqa: F811
+    _run_c21d(ctx)
+    r21_10(ctx, ctx.model)
+    r21_11(ctx, ctx.model)
